@@ -103,3 +103,18 @@ Proof.
   unfold all_events. simpl. apply perm_skip.
   apply Permutation_sym. apply (Permutation_rev [EFwd 0; EFwd 1; EFwd 2]).
 Qed.
+
+(* the QUEUED path: the arguments of a queued event are stored in a tuple and handed to the listeners as
+   std::get<I>(tuple) for the indices I of internal_::MakeIndexSequence<N>::Type.  That template is the linear recursion tie A
+   reads off the header (GenDisp.index_sequence_linear; any other construction is refused), and for EVERY arity N the
+   recursion yields 0, 1, …, N-1: every stored argument reaches the listeners once, in its own position *)
+From EV Require IndexSeq.
+Theorem C04_queued_arguments_are_expanded_in_order :
+  GenDisp.index_sequence_linear = true /\ forall n, IndexSeq.mk_seq n [] = seq 0 n.
+Proof. split; [reflexivity|exact IndexSeq.index_sequence_is_the_identity]. Qed.
+Print Assumptions C04_queued_arguments_are_expanded_in_order.
+
+(* regression statement for a log-depth construction with the wrong odd step (seeded change C04d): right up to arity 4 *)
+Example C04_doubling_with_the_wrong_odd_step_refuted :
+  (forall n, n <= 4 -> IndexSeq.dbl 10 n = seq 0 n) /\ IndexSeq.dbl 10 5 = [0; 1; 2; 3; 3].
+Proof. exact IndexSeq.doubling_with_the_wrong_odd_step_refuted. Qed.
